@@ -58,3 +58,346 @@ def capture_ref(filters, signals, x=None, dx=None, trapz=True):
         # (..., i, d) x (..., j, d) -> (..., i, j)
         return np.einsum("...id,...jd,d->...ij", signals, filters, w)
     return np.sum(filters * signals * w, axis=-1)
+
+
+# ---------------------------------------------------------------------------
+# model transform (own matmul):  relative capture = K (A x + baseline)
+
+
+def transform(A, K=None, baseline=None):
+    """returns (Abar, c0) with relative capture = Abar @ x + c0."""
+    A = np.asarray(A, dtype=float)
+    m = A.shape[0]
+    b = np.zeros(m) if baseline is None else np.broadcast_to(np.asarray(baseline, dtype=float), (m,)).astype(float)
+    if K is None:
+        return A.copy(), b.copy()
+    K = np.asarray(K, dtype=float)
+    if K.ndim == 0:
+        K = np.full(m, float(K))
+    if K.ndim == 1:
+        K = np.broadcast_to(K, (m,))
+        return A * K[:, None], b * K
+    return K @ A, K @ b
+
+
+def bounds_arrays(lb, ub, n):
+    lo = np.zeros(n) if lb is None else np.broadcast_to(np.asarray(lb, dtype=float), (n,)).astype(float)
+    hi = np.full(n, np.inf) if ub is None else np.broadcast_to(np.asarray(ub, dtype=float), (n,)).astype(float)
+    return lo, hi
+
+
+# ---------------------------------------------------------------------------
+# O-ZONO: H-representation of  c + { G y : |y_k| <= r_k }
+
+
+def _null_vector(M, tol=1e-10):
+    """unit vector spanning the null space of M (k x m, k = m-1) or None if the null space is not 1-D."""
+    m = M.shape[1]
+    if M.shape[0] == 0:
+        return np.ones(1) if m == 1 else None
+    u, s, vt = np.linalg.svd(M, full_matrices=True)
+    rank = int(np.sum(s > tol * max(1.0, s[0])))
+    if rank != m - 1:
+        return None
+    return vt[-1]
+
+
+def zono_hrep(G, r):
+    """facets of the zonotope { G y : |y_k| <= r_k } (centred).  Returns (N, h): unit normals (one per
+    antipodal pair) and support values, or None when the zonotope is not full-dimensional."""
+    G = np.asarray(G, dtype=float)
+    m, n = G.shape
+    act = [k for k in range(n) if r[k] > 0 and np.linalg.norm(G[:, k]) > 0]
+    if np.linalg.matrix_rank(G[:, act]) < m if act else True:
+        return None
+    normals = []
+    for S in itertools.combinations(act, m - 1):
+        nu = _null_vector(G[:, list(S)].T)
+        if nu is None:
+            continue
+        # canonical sign
+        j = int(np.argmax(np.abs(nu) > 1e-12))
+        if nu[j] < 0:
+            nu = -nu
+        if any(np.linalg.norm(nu - q) < 1e-9 for q in normals):
+            continue
+        normals.append(nu)
+    N = np.array(normals)
+    h = np.abs(N @ G) @ np.asarray(r, dtype=float)
+    return N, h
+
+
+def zono_margin(P, Abar, c0, lo, hi):
+    """signed margin (>0 inside: exact distance to the boundary; <0 outside: a lower bound on the distance)
+    of the rows of P w.r.t. the gamut c0 + {Abar x : lo<=x<=hi}.  None if the gamut is flat or unbounded."""
+    if not np.all(np.isfinite(hi)):
+        return None
+    r = (hi - lo) / 2.0
+    c = c0 + Abar @ ((hi + lo) / 2.0)
+    hr = zono_hrep(Abar, r)
+    if hr is None:
+        return None
+    N, h = hr
+    D = (np.atleast_2d(P) - c) @ N.T
+    return np.min(h[None, :] - np.abs(D), axis=1)
+
+
+def zono_facet_points(Abar, c0, lo, hi):
+    """for every facet (both antipodes): (centroid of the facet, outward unit normal)."""
+    r = (hi - lo) / 2.0
+    c = c0 + Abar @ ((hi + lo) / 2.0)
+    hr = zono_hrep(Abar, r)
+    if hr is None:
+        return []
+    N, h = hr
+    out = []
+    for nu in N:
+        proj = nu @ Abar
+        s = np.where(np.abs(proj) > 1e-10, np.sign(proj), 0.0)
+        cen = c + Abar @ (s * r)
+        out.append((cen, nu))
+        out.append((2 * c - cen, -nu))
+    return out
+
+
+def cone_margin(P, Abar, apex):
+    """signed margin w.r.t. the cone apex + {Abar y : y >= 0}; None if not full-dimensional or not pointed-representable."""
+    G = np.asarray(Abar, dtype=float)
+    m, n = G.shape
+    if np.linalg.matrix_rank(G) < m:
+        return None
+    normals = []
+    for S in itertools.combinations(range(n), m - 1):
+        nu = _null_vector(G[:, list(S)].T)
+        if nu is None:
+            continue
+        pr = nu @ G
+        if np.all(pr >= -1e-10):
+            pass
+        elif np.all(pr <= 1e-10):
+            nu = -nu
+        else:
+            continue
+        if any(np.linalg.norm(nu - q) < 1e-9 for q in normals):
+            continue
+        normals.append(nu)
+    if not normals:
+        # the cone is the whole space
+        return np.full(np.atleast_2d(P).shape[0], np.inf)
+    N = np.array(normals)
+    return np.min((np.atleast_2d(P) - apex) @ N.T, axis=1)
+
+
+# ---------------------------------------------------------------------------
+# O-BVLS: global optimum of min || w * (G x + c0 - b) ||_2 over lo <= x <= hi by active-set enumeration
+
+
+def box_lsq(G, b, lo, hi, w=None, c0=None):
+    """returns (value, x): the global minimum of ||w*(G x + c0 - b)|| over the box (hi may be +inf)
+    by enumerating every pattern (at lo / at hi / free)."""
+    G = np.asarray(G, dtype=float)
+    m, n = G.shape
+    b = np.asarray(b, dtype=float) - (0.0 if c0 is None else np.asarray(c0, dtype=float))
+    if w is not None:
+        w = np.asarray(w, dtype=float)
+        G = G * w[:, None]
+        b = b * w
+    opts = []
+    for k in range(n):
+        o = [0, 2]  # at lo, free
+        if np.isfinite(hi[k]):
+            o.append(1)
+        opts.append(o)
+    best = (np.inf, None)
+    scale = max(1.0, float(np.max(np.abs(hi[np.isfinite(hi)]))) if np.any(np.isfinite(hi)) else 1.0)
+    tol = 1e-10 * scale
+    for pat in itertools.product(*opts):
+        pat = np.array(pat)
+        x = np.where(pat == 0, lo, np.where(pat == 1, np.where(np.isfinite(hi), hi, 0.0), 0.0))
+        free = np.flatnonzero(pat == 2)
+        if free.size:
+            if free.size > m and np.linalg.matrix_rank(G[:, free]) < free.size:
+                # non-unique free part: minimum-norm solution is one candidate; others are covered by smaller free sets
+                pass
+            rhs = b - G @ x
+            sol = np.linalg.lstsq(G[:, free], rhs, rcond=None)[0]
+            if np.any(sol < lo[free] - tol) or np.any(sol > hi[free] + tol):
+                continue
+            x = x.copy()
+            x[free] = np.clip(sol, lo[free], hi[free])
+        val = float(np.linalg.norm(G @ x - b))
+        if val < best[0]:
+            best = (val, x)
+    return best
+
+
+def box_lsq_certified(G, b, lo, hi, w=None, c0=None):
+    """(value, x, lower_bound): scipy BVLS candidate plus a rigorous lower bound from convexity
+    f* >= f(x) + min_y grad f(x).(y - x) over the box (finite boxes only)."""
+    from scipy.optimize import lsq_linear as sp_lsq
+
+    G = np.asarray(G, dtype=float)
+    b = np.asarray(b, dtype=float) - (0.0 if c0 is None else np.asarray(c0, dtype=float))
+    if w is not None:
+        w = np.asarray(w, dtype=float)
+        G = G * w[:, None]
+        b = b * w
+    res = sp_lsq(G, b, bounds=(lo, hi), method="bvls", tol=1e-14, max_iter=10000)
+    x = np.clip(res.x, lo, hi)
+    rres = G @ x - b
+    f = 0.5 * float(rres @ rres)
+    g = G.T @ rres
+    low = f + float(np.sum(np.minimum(g * (lo - x), g * (hi - x))))
+    return float(np.linalg.norm(rres)), x, math.sqrt(max(0.0, 2 * low))
+
+
+# ---------------------------------------------------------------------------
+# O-POLY: vertices of { x : G x = b, lo <= x <= hi }
+
+
+def poly_vertices(G, b, lo, hi, tol=1e-9):
+    G = np.asarray(G, dtype=float)
+    m, n = G.shape
+    b = np.asarray(b, dtype=float)
+    k = n - m
+    V = []
+    scale = max(1.0, float(np.max(np.abs(hi - lo))))
+    if k < 0:
+        return np.zeros((0, n))
+    for fixed in itertools.combinations(range(n), k):
+        fixed = list(fixed)
+        rest = [j for j in range(n) if j not in fixed]
+        M = G[:, rest]
+        if abs(np.linalg.det(M)) < 1e-12 * max(1.0, np.max(np.abs(M))) ** m:
+            continue
+        for corner in itertools.product((0, 1), repeat=k):
+            xf = np.where(np.array(corner) == 1, hi[fixed], lo[fixed]) if k else np.zeros(0)
+            rhs = b - (G[:, fixed] @ xf if k else 0.0)
+            xr = np.linalg.solve(M, rhs)
+            if np.all(xr >= lo[rest] - tol * scale) and np.all(xr <= hi[rest] + tol * scale):
+                x = np.zeros(n)
+                x[fixed] = xf
+                x[rest] = np.clip(xr, lo[rest], hi[rest])
+                V.append(x)
+    if not V:
+        return np.zeros((0, n))
+    V = np.array(V)
+    # dedupe
+    keep = []
+    for v in V:
+        if not any(np.max(np.abs(v - u)) < 1e-9 * scale for u in keep):
+            keep.append(v)
+    return np.array(keep)
+
+
+def lp_extents(G, b, lo, hi):
+    """cross-check: per-variable min/max over the polytope with HiGHS."""
+    from scipy.optimize import linprog
+
+    n = G.shape[1]
+    mins, maxs = np.full(n, np.nan), np.full(n, np.nan)
+    for k in range(n):
+        c = np.zeros(n)
+        c[k] = 1.0
+        r1 = linprog(c, A_eq=G, b_eq=b, bounds=list(zip(lo, hi)), method="highs")
+        r2 = linprog(-c, A_eq=G, b_eq=b, bounds=list(zip(lo, hi)), method="highs")
+        if r1.status == 0:
+            mins[k] = r1.x[k]
+        if r2.status == 0:
+            maxs[k] = r2.x[k]
+    return mins, maxs
+
+
+# ---------------------------------------------------------------------------
+# O-HULL: brute-force H-representation of a point cloud
+
+
+def hull_hrep(P, tol=1e-9):
+    """(N, off) with N x + off <= 0 inside, for a full-dimensional cloud; None if flat."""
+    P = np.asarray(P, dtype=float)
+    npts, d = P.shape
+    c = P.mean(0)
+    Q = P - c
+    scale = max(1e-300, float(np.max(np.abs(Q))))
+    if np.linalg.matrix_rank(Q, tol=1e-9 * scale * max(Q.shape)) < d:
+        return None
+    normals, offs = [], []
+    if d == 1:
+        return np.array([[1.0], [-1.0]]), np.array([-P.max(), P.min()])
+    for S in itertools.combinations(range(npts), d):
+        S = list(S)
+        M = Q[S[1:]] - Q[S[0]]
+        nu = _null_vector(M)
+        if nu is None:
+            continue
+        o = -(nu @ Q[S[0]])
+        vals = Q @ nu + o
+        if np.all(vals <= tol * scale):
+            pass
+        elif np.all(vals >= -tol * scale):
+            nu, o = -nu, -o
+        else:
+            continue
+        if any(np.linalg.norm(nu - q) < 1e-9 and abs(o - oo) < 1e-9 * scale for q, oo in zip(normals, offs)):
+            continue
+        normals.append(nu)
+        offs.append(o)
+    N = np.array(normals)
+    off = np.array(offs) - N @ c
+    return N, off
+
+
+def hull_margin(P, B, tol=1e-9):
+    """signed margin of rows of B w.r.t. conv(P) (positive inside = distance to boundary; negative outside =
+    minus a lower bound on the distance).  None if conv(P) is flat."""
+    hr = hull_hrep(P, tol)
+    if hr is None:
+        return None
+    N, off = hr
+    return np.min(-(np.atleast_2d(B) @ N.T + off), axis=1)
+
+
+def hull_dist(P, b):
+    """Euclidean distance from b to conv(P) by NNLS on the lifted system (sum of weights = 1 enforced with a large weight)
+    followed by exact active-set polishing.  Tolerance-based; for small clouds."""
+    from scipy.optimize import nnls
+
+    P = np.asarray(P, dtype=float)
+    b = np.asarray(b, dtype=float)
+    scale = max(1.0, float(np.max(np.abs(P))), float(np.max(np.abs(b))))
+    big = 1e4
+    A = np.vstack([P.T / scale, big * np.ones((1, P.shape[0]))])
+    rhs = np.concatenate([b / scale, [big]])
+    lam, _ = nnls(A, rhs, maxiter=100 * P.shape[0])
+    s = lam.sum()
+    if s <= 0:
+        return float(np.min(np.linalg.norm(P - b, axis=1)))
+    lam = lam / s
+    return float(np.linalg.norm(lam @ P - b))
+
+
+def hull_volume(P):
+    """volume of conv(P) for a full-dimensional cloud in R^d by a fan triangulation of the H-rep facets (d<=4),
+    computed as sum over facets of (distance of interior point to facet) * facet volume / d, recursively."""
+    P = np.asarray(P, dtype=float)
+    d = P.shape[1]
+    if d == 1:
+        return float(P.max() - P.min())
+    hr = hull_hrep(P)
+    if hr is None:
+        return 0.0
+    N, off = hr
+    c = P.mean(0)
+    scale = max(1e-300, float(np.max(np.abs(P - c))))
+    vol = 0.0
+    for nu, o in zip(N, off):
+        on = np.abs(P @ nu + o) <= 1e-8 * scale
+        F = P[on]
+        # orthonormal basis of the facet hyperplane
+        u, s, vt = np.linalg.svd(np.eye(d) - np.outer(nu, nu))
+        Bas = vt[: d - 1]
+        Fp = (F - F[0]) @ Bas.T
+        fv = hull_volume(Fp) if d - 1 > 1 else float(Fp.max() - Fp.min())
+        dist = -(c @ nu + o)
+        vol += fv * dist / d
+    return vol
